@@ -10,7 +10,7 @@ RULES = ['start.single', 'start.sticky', 'start.on', 'start.multi', 'start.mstic
          'start.current', 'rdLoad.empty', 'rdLoad.cbs', 'rdLoad.result', 'ready.true', 'ready.false', 'ready.false.cbs',
          'mready.true', 'mready.false', 'regLoad.go', 'regLoad.fail', 'cas.ok', 'cas.retry', 'cas.fail', 'msub', 'mload',
          'msuspend.last', 'msuspend.notlast', 'tstore', 'submit', 'exCall', 'exDrop', 'resume.inl', 'resume.cell', 'resume.exec',
-         'envSwap+resume.cell', 'current', 'ret', 'ldtor.leave', 'ldtor.destroy', 'publish', 'publish.dropped', 'fdtor',
+         'envSwap+resume.cell', 'current', 'tdtor', 'ret', 'ldtor.leave', 'ldtor.destroy', 'publish', 'publish.dropped', 'fdtor',
          'pXchg.empty', 'pXchg.mine', 'pXchg.foreign', 'envPush', 'fire.single', 'fire.sticky', 'fire.on', 'fire.task',
          'fire.multi.last', 'fire.multi.notlast', 'fire.msticky.last', 'fire.msticky.notlast', 'fire.mon.last', 'fire.mon.notlast']
 # model behaviours the sequentially consistent FIBER backend cannot show (the driver insists on current values)
